@@ -261,6 +261,79 @@ def _derived_bases(model, rep):
                      f"derived from", fn.lineno)
 
 
+def _split_bases(model, rep):
+    """split_bases (used by split / interpolate of composite and vector
+    elements) builds one basis per component: each must integrate over the
+    same cells / facets / side with the same rule as the basis it is a
+    component of."""
+    R1 = "C02-R1"
+    acls = model.cls(f"{AB}.abstract_basis", "AbstractBasis")
+    fn = acls.find_method("split_bases")
+    if fn is None:
+        raise AnalysisError("AbstractBasis.split_bases not found")
+    ecomp = model.cls("skfem.element.element_composite", "ElementComposite")
+    evec = model.cls("skfem.element.element_vector", "ElementVector")
+    kinds = [("cell_basis", "CellBasis",
+              {"mapping": "MAP", "quadrature": "QUAD", "elements": "TIND"}),
+             ("facet_basis", "FacetBasis",
+              {"mapping": "MAP", "quadrature": "QUAD", "facets": "FIND",
+               "side": "SIDE"})]
+    elems = [("composite", lambda: Obj(ecomp, {"elems": ["E0", "E1"]}),
+              ["E0", "E1"]),
+             ("vector", lambda: Obj(evec, {"elem": "E0", "dim": 2}),
+              ["E0", "E0"])]
+    for modn, clsn, want_kw in kinds:
+        cls = model.cls(f"{AB}.{modn}", clsn)
+        for ename, mk, want_elems in elems:
+            built = []
+
+            def ctor(a, k, n, built=built):
+                built.append((list(a), dict(k)))
+                return "NEW"
+            obj = Obj(cls, {"mesh": "MESH", "elem": mk(), "mapping": "MAP",
+                            "quadrature": "QUAD", "tind": "TIND",
+                            "find": "FIND", "side": "SIDE",
+                            "intorder": "ORDER"})
+            it = Interp(model)
+            orig = it.builtin
+
+            def builtin(f, a, k, node, orig=orig, ctor=ctor):
+                if f.name == "type" and len(a) == 1:
+                    return PyFunc(ctor)
+                return orig(f, a, k, node)
+            it.builtin = builtin
+            try:
+                it.call(fn, [], {}, self_obj=obj)
+            except (Unsupported, Raised) as e:
+                raise AnalysisError(f"{clsn}.split_bases[{ename}]: {e}")
+            sig = cls.methods["__init__"].params()[1:]
+            cons = f"{clsn}.split_bases[{ename}]:forwards"
+            bad = None
+            if len(built) != len(want_elems):
+                bad = f"{len(built)} component bases are built, " \
+                      f"{len(want_elems)} expected"
+            for (a, k), we in zip(built, want_elems):
+                bound = dict(zip(sig, a))
+                bound.update(k)
+                missing = sorted(kk for kk, v in want_kw.items()
+                                 if bound.get(kk) != v)
+                if [bound.get("mesh"), bound.get("elem")] != ["MESH", we]:
+                    bad = f"component built on {bound.get('mesh')!r} with " \
+                          f"element {bound.get('elem')!r}"
+                elif missing:
+                    bad = (f"the component basis does not receive "
+                           f"{missing} of the basis it belongs to (got "
+                           f"{ {x: v for x, v in bound.items() if v is not None} })"
+                           f": it integrates over all cells / all boundary "
+                           f"facets / side 0")
+            if bad is None:
+                rep.ok(R1, cons, f"every component basis receives "
+                       f"{sorted(want_kw)} of the original")
+            else:
+                rep.fail(R1, fn.path, "AbstractBasis.split_bases", cons,
+                         bad, fn.lineno)
+
+
 def _boundary_basis(model, rep):
     """CellBasis.boundary(facets, intorder, quadrature): the facet basis is
     built on the same mesh / element / mapping and with the facets, order
@@ -646,6 +719,7 @@ def run(model: Model, rep, tier: str) -> None:
     rep.rule("C02-R3", "declared maxdeg >= total degree of every local "
              "basis polynomial")
     staged(lambda: _derived_bases(model, rep),
+           lambda: _split_bases(model, rep),
            lambda: _boundary_basis(model, rep),
            lambda: _r12(model, rep), lambda: _interior_basis(model, rep),
            lambda: _r3(model, rep))
@@ -658,6 +732,12 @@ _CB = "skfem/assembly/basis/cell_basis.py"
 _FB = "skfem/assembly/basis/facet_basis.py"
 _ABF = "skfem/assembly/basis/abstract_basis.py"
 MUTANTS = [
+    ("component bases rebuilt without the restriction of their parent",
+     ("skfem/assembly/basis/abstract_basis.py",
+      "            return [self.with_element(e) for e in self.elem.elems]",
+      "            return [type(self)(self.mesh, e, self.mapping,\n"
+      "                               quadrature=self.quadrature)\n"
+      "                    for e in self.elem.elems]"), "C02-R1"),
     ("boundary() forgets the requested integration order",
      ("skfem/assembly/basis/cell_basis.py",
       "            facets=facets,\n            intorder=intorder,\n",
